@@ -5,7 +5,7 @@ import asyncio
 
 def make_site(loop, hlog, extra=None):
     """Site with:
-    /r   configurable by request payload  b"d=<delay>;c=<code int>;p=<payload text>;nr=<no_response int>"
+    /r   configurable by request payload  b"d=<delay>;c=<code int>;p=<payload text>;nr=<no_response int>;x=raise|crash"
     hlog: list receiving dicts {ev, t, remote, mid, token, code, path, payload}
     """
     import aiocoap
@@ -37,6 +37,16 @@ def make_site(loop, hlog, extra=None):
                 d = float(cfg.get("d", "0"))
                 if d > 0:
                     await asyncio.sleep(d)
+                if cfg.get("x") == "raise":
+                    # a renderable error of the library with the requested code
+                    from aiocoap import error
+
+                    cls = {128: error.BadRequest, 132: error.NotFound, 163: error.ServiceUnavailable}[int(cfg.get("c", "128"))]
+                    hlog.append(dict(entry, ev="exit", t=loop.time()))
+                    raise cls(cfg.get("p", "ok"))
+                if cfg.get("x") == "crash":
+                    hlog.append(dict(entry, ev="exit", t=loop.time()))
+                    raise RuntimeError("handler crashed")
                 m = aiocoap.Message(payload=cfg.get("p", "ok").encode())
                 if "c" in cfg:
                     m.code = aiocoap.numbers.codes.Code(int(cfg["c"]))
